@@ -16,7 +16,9 @@
 (***************************************************************************)
 EXTENDS Integers, Sequences, FiniteSets, TLC
 
-CONSTANTS Miner, Outsider, T, VerifyAttached, MaxMsgs, MaxSet
+CONSTANTS Miner, Outsider, T, VerifyAttached, MaxMsgs, MaxSet,
+          Rep      \* how many times each ticket of a message is repeated on the wire (a byzantine sender
+                   \* may repeat tickets; merging de-duplicates by verifier, so repetition must not matter)
 
 Ticket == [v : Miner \cup Outsider, q : {"ok", "bad"}]
 Good(t) == t.v \in Miner /\ t.q = "ok"
@@ -40,13 +42,13 @@ AllVerify(S) == \A t \in S : Good(t)
 
 Sent == msgs < MaxMsgs /\ msgs' = msgs + 1
 
-VB(S) ==
+VB(S, rep) ==
   /\ Sent /\ ~known
-  /\ LET kept == IF VerifyAttached THEN (IF AllVerify(S) THEN S ELSE {}) ELSE S
+  /\ LET kept == IF VerifyAttached THEN (IF AllVerify(S) /\ rep = 1 THEN S ELSE {}) ELSE S   \* repeated tickets are rejected
          all  == Merge(kept, roundT) IN
        /\ blockT' = all /\ known' = TRUE
        /\ notar' = (Count(all) >= T)
-  /\ hist' = Append(hist, [m |-> "VB", s |-> S])
+  /\ hist' = Append(hist, [m |-> "VB", s |-> S, rep |-> rep])
   /\ UNCHANGED roundT
 
 TK(t) ==
@@ -55,10 +57,10 @@ TK(t) ==
      ELSE IF ~known THEN roundT' = roundT \cup {t} /\ UNCHANGED <<blockT, notar>>
      ELSE /\ blockT' = Merge(blockT, {t}) /\ UNCHANGED roundT
           /\ notar' = (notar \/ Count(blockT') >= T)
-  /\ hist' = Append(hist, [m |-> "TK", s |-> {t}])
+  /\ hist' = Append(hist, [m |-> "TK", s |-> {t}, rep |-> 1])
   /\ UNCHANGED known
 
-NZ(S) ==
+NZ(S, rep) ==
   /\ Sent /\ known
   /\ IF notar THEN UNCHANGED <<blockT, notar>>
      ELSE LET unk == {t \in S : t.v \notin Verifiers(blockT)} IN
@@ -70,10 +72,10 @@ NZ(S) ==
                /\ blockT' = Merge(blockT, unk)
                /\ notar' = (Count(blockT') >= T)
           ELSE UNCHANGED <<blockT, notar>>
-  /\ hist' = Append(hist, [m |-> "NZ", s |-> S])
+  /\ hist' = Append(hist, [m |-> "NZ", s |-> S, rep |-> rep])
   /\ UNCHANGED <<known, roundT>>
 
-Next == (\E S \in TicketSets : VB(S) \/ NZ(S)) \/ (\E t \in Ticket : TK(t))
+Next == (\E S \in TicketSets, rep \in Rep : VB(S, rep) \/ NZ(S, rep)) \/ (\E t \in Ticket : TK(t))
 Spec == Init /\ [][Next]_vars
 
 GoodCount(S) == Cardinality({t.v : t \in {x \in S : Good(x)}})
